@@ -1198,7 +1198,18 @@ def run(index: RepoIndex, rep) -> None:
     fr = index.func('gym_gridverse/grid_object.py', 'GridObjectRegistry.from_name')
     w = walk_function(fr.node)
     rz = [e for e in w.events if e.kind == 'raise' and e.value is not None]
-    rep.check(any(src(e.value).startswith('ValueError(') for e in rz), 'C17.R5',
+
+    def _raised(e: ast.AST) -> str:
+        # `raise self._unregistered_error(name)`: a one-expression helper that builds the error
+        from ..inline import inline_pure_exprs, pure_body_expr
+        if isinstance(e, ast.Call) and isinstance(e.func, ast.Attribute) and \
+                src(e.func.value) in ('self', 'cls', fr.cls.name if fr.cls else '') and \
+                fr.cls is not None and e.func.attr in fr.cls.methods:
+            b_ = pure_body_expr(fr.cls.methods[e.func.attr].node)
+            if b_ is not None:
+                return src(b_)
+        return src(inline_pure_exprs(index, fr.module, fr.cls, e))
+    rep.check(any(_raised(e.value).startswith('ValueError(') for e in rz), 'C17.R5',
               'gym_gridverse/grid_object.py', 'GridObjectRegistry.from_name', fr.node.lineno,
               '; '.join(src(e.stmt)[:60] for e in rz),
               'an unknown object name does not raise ValueError', 'unknown object -> ValueError')
@@ -1212,6 +1223,10 @@ def run(index: RepoIndex, rep) -> None:
     for n_ in ast.walk(fr.node):
         for ch_ in ast.iter_child_nodes(n_):
             parents_[id(ch_)] = n_
+    def _ancestors(x):
+        while id(x) in parents_:
+            x = parents_[id(x)]
+            yield x
     for n_ in ast.walk(fr.node):
         if not (isinstance(n_, ast.Name) and n_.id == np_ and isinstance(n_.ctx, ast.Load)):
             continue
@@ -1227,6 +1242,8 @@ def run(index: RepoIndex, rep) -> None:
             exact += 1
         elif isinstance(pa, (ast.FormattedValue, ast.JoinedStr)):
             pass        # error message
+        elif any(isinstance(a_, ast.Raise) for a_ in _ancestors(n_)):
+            pass        # handed to whatever builds the error
         else:
             loose.append(src(pa) if pa is not None else np_)
     rep.check(exact >= 1 and not loose, 'C17.R5', 'gym_gridverse/grid_object.py',
